@@ -242,6 +242,7 @@ def _check_interval_forms(acc, mods, fa, dur, ds, dur_case):
         forms.append((f"{ta}Z/{ds}", fa, end, "start/duration"))
         tb = "%04d-%02d-%02dT%02d:%02d:%02d" % end[:6]
         forms.append((f"{ta}Z/{tb}Z", fa, end, "start/end"))
+        forms.append((f"{tb}Z/{ta}Z", end, fa, "start/end-reversed"))     # endpoints exactly as written, later one first
     if start2 is not None and 2 <= start2[0] <= 9998:
         forms.append((f"{ds}/{ta}Z", start2, fa, "duration/end"))
     # the same strings without a UTC designator, read in the zone given by the tz option (a fixed offset: the wall-clock
